@@ -32,8 +32,8 @@ theorem srcSlots_congr {N : Nat} {src : Nat → Nat} {img img' : Img}
 
 /-- the remaining stream operations of a directory written through `F` / `G`; `Extra` = the bytes the destructor of a
     clone may write besides (the directory's own entry in its parent; nothing for the roots) -/
-structure WOps (Inv : Dev → Prop) (F G : Nat → DirStream) (N : Nat) (src room : Nat → Nat) (Extra : Nat → Prop) :
-    Prop where
+structure WOps (Inv : Dev → Prop) (F G : Nat → DirStream) (N : Nat) (src room : Nat → Nat) (Extra : Nat → Prop)
+    (DropPost : Img → Img → Prop) : Prop where
   dsrc : ∀ d, Inv d → DirSrc d F N src room
   fuel : ∀ d, Inv d → N < dirFuel d.fs
   seekStartF : ∀ d, Inv d → ∀ d0, SameVol d d0 → ∀ o t, o ≤ 32 * N → t ≤ 32 * N →
@@ -44,7 +44,7 @@ structure WOps (Inv : Dev → Prop) (F G : Nat → DirStream) (N : Nat) (src roo
     ∃ d1, run ((G o).absPos fs') d = (.ok (some (src (o - 32) + 32)), d1) ∧ SameVol d d1
   dropG : ∀ d, Inv d → ∀ o, o ≤ 32 * N → ∃ d1, run (G o).dropBody d = (.ok (), d1) ∧ VolStep d d1 ∧ Inv d1 ∧
     (d.fs.curDirty = true → d1.fs.curDirty = true) ∧
-    (∀ q, 0x42 ≤ q → ¬ Extra q → d1.img.getByte q = d.img.getByte q)
+    (∀ q, 0x42 ≤ q → ¬ Extra q → d1.img.getByte q = d.img.getByte q) ∧ DropPost d.img d1.img
   extra_out : ∀ i, i < N → ∀ x, x < 32 → ¬ Extra (src (32 * i) + x)
 
 /-- scope exit when body and destructor both succeed -/
@@ -57,20 +57,27 @@ theorem sameVol_depth (d : Dev) (n : Nat) : SameVol d { d with dropDepth := n } 
 
 section generic
 variable {Inv : Dev → Prop} {F G : Nat → DirStream} {N : Nat} {src room : Nat → Nat} {Extra : Nat → Prop}
+  {DropPost : Img → Img → Prop}
+
+/-- the image before the destructor of the clone ran: the frame holds of it exactly, and the destructor did `DropPost` -/
+def MidImg (N : Nat) (src : Nat → Nat) (DropPost : Img → Img → Prop) (d d' : Dev) : Prop :=
+  ∃ im : Img, (∀ q, 0x42 ≤ q → (∀ i, i < N → ¬ (src (32 * i) ≤ q ∧ q < src (32 * i) + 32)) → im.getByte q = d.img.getByte q) ∧
+    DropPost im d'.img
 
 /-- **`deleteEntry`, generic**: for an entry occupying the slots `[b, b + k)`, `k > 0` -/
 theorem WFam.deleteEntry (IO : InvOK Inv) (hg : SlotGeo N src) (W : WFam Inv F G N src room)
-    (WG : WFam Inv G G N src room) (O : WOps Inv F G N src room Extra) (e : DirEntry) (b k : Nat) (hk : 0 < k)
+    (WG : WFam Inv G G N src room) (O : WOps Inv F G N src room Extra DropPost) (e : DirEntry) (b k : Nat) (hk : 0 < k)
     (hb : e.rangeBegin = 32 * b) (he : e.rangeEnd = 32 * (b + k)) (hle : b + k ≤ N) (d : Dev) (hinv : Inv d) :
     ∃ d', run (FatVerif.deleteEntry (F 0) e) d = (.ok (), d') ∧
       VolStep d d' ∧ d'.fs.curDirty = true ∧ Inv d' ∧
-      srcSlots d'.img src N = DirSlots.deleteRange (srcSlots d.img src N) b (b + k) ∧ FrameOutE N src Extra d d' := by
+      srcSlots d'.img src N = DirSlots.deleteRange (srcSlots d.img src N) b (b + k) ∧ FrameOutE N src Extra d d' ∧
+      MidImg N src DropPost d d' := by
   obtain ⟨d0, h0, hs0⟩ := O.seekStartF d hinv d (SameVol.refl d) 0 (32 * b) (Nat.zero_le _) (by omega)
   have hinv0 := IO.vol d d0 hinv hs0 (run_clock _ _ _ _ h0)
   obtain ⟨d1, h1, hs1, hd1, hinv1, hsl1, hfr1⟩ := W.deleteSlots IO hg WG k b hk d0 hinv0 hle
   -- the destructor of the clone
   have hinv1' : Inv { d1 with dropDepth := d1.dropDepth + 1 } := IO.vol _ _ hinv1 (sameVol_depth d1 _) rfl
-  obtain ⟨d2, h2, hs2, hinv2, hk2, hb2⟩ := O.dropG _ hinv1' (32 * (b + k)) (by omega)
+  obtain ⟨d2, h2, hs2, hinv2, hk2, hb2, hdp2⟩ := O.dropG _ hinv1' (32 * (b + k)) (by omega)
   have hs12 : VolStep d1 { d2 with dropDepth := d2.dropDepth - 1 } :=
     ((VolStep.of_sameVol (sameVol_depth d1 _)).trans hs2).trans (VolStep.of_sameVol (sameVol_depth d2 _))
   have hkk : (e.rangeEnd - e.rangeBegin) / 32 = k := by rw [hb, he]; omega
@@ -78,7 +85,8 @@ theorem WFam.deleteEntry (IO : InvOK Inv) (hg : SlotGeo N src) (W : WFam Inv F G
     srcSlots_congr (fun i hi x hx => hb2 _ (by have := hg.behind i hi; omega) (O.extra_out i hi x hx))
   refine ⟨{ d2 with dropDepth := d2.dropDepth - 1 }, ?_,
     ((VolStep.of_sameVol hs0).trans hs1).trans hs12, hk2 hd1,
-    IO.vol _ _ hinv2 (sameVol_depth d2 _) rfl, ?_, ?_⟩
+    IO.vol _ _ hinv2 (sameVol_depth d2 _) rfl, ?_, ?_,
+    ⟨d1.img, fun q hq hn => by rw [hfr1 q hq hn, hs0.img], hdp2⟩⟩
   · unfold FatVerif.deleteEntry withStream
     have hbody : run (do
         let (_, st) ← (F 0).seek (.start e.rangeBegin)
@@ -99,7 +107,7 @@ theorem WFam.deleteEntry (IO : InvOK Inv) (hg : SlotGeo N src) (W : WFam Inv F G
 
 /-- **`write_entry`, generic**, for an ordinary name whose slots fit into the allocated space of the directory -/
 theorem WFam.writeEntry (IO : InvOK Inv) (hg : SlotGeo N src) (W : WFam Inv F G N src room)
-    (WG : WFam Inv G G N src room) (O : WOps Inv F G N src room Extra) (name : String) (raw : DirFileEntryData)
+    (WG : WFam Inv G G N src room) (O : WOps Inv F G N src room Extra DropPost) (name : String) (raw : DirFileEntryData)
     (hval : Names.validateLongName name = .ok ()) (hdot : (name = "." || name = "..") = false) (hraw : raw.WF)
     (d : Dev) (hinv : Inv d)
     (hfit : DirSlots.findFree (srcSlots d.img src N) (Lfn.numParts (Names.encodeUtf16 name.toList).length + 1) +
@@ -116,7 +124,7 @@ theorem WFam.writeEntry (IO : InvOK Inv) (hg : SlotGeo N src) (W : WFam Inv F G 
                   (Lfn.numParts (Names.encodeUtf16 name.toList).length + 1)) }, d') ∧
       VolStep d d' ∧ d'.fs.curDirty = true ∧ Inv d' ∧
       srcSlots d'.img src N = DirSlots.writeEntry (srcSlots d.img src N) (Names.encodeUtf16 name.toList) raw.serialize ∧
-      FrameOutE N src Extra d d' := by
+      FrameOutE N src Extra d d' ∧ MidImg N src DropPost d d' := by
   generalize hunits : Names.encodeUtf16 name.toList = units at hfit ⊢
   generalize hnum : Lfn.numParts units.length + 1 = num at hfit ⊢
   generalize hp : DirSlots.findFree (srcSlots d.img src N) num = p at hfit ⊢
@@ -165,7 +173,7 @@ theorem WFam.writeEntry (IO : InvOK Inv) (hg : SlotGeo N src) (W : WFam Inv F G 
   obtain ⟨d5, h5, hs5⟩ := O.absPosG d4 hinv4 d.fs hgeo4 (32 * (p + num)) (by omega) (by omega) (by omega)
   have hinv5 := IO.vol d4 d5 hinv4 hs5 (run_clock _ _ _ _ h5)
   have hinv5' : Inv { d5 with dropDepth := d5.dropDepth + 1 } := IO.vol _ _ hinv5 (sameVol_depth d5 _) rfl
-  obtain ⟨d6, h6, hs6, hinv6, hk6, hb6⟩ := O.dropG _ hinv5' (32 * (p + num)) (by omega)
+  obtain ⟨d6, h6, hs6, hinv6, hk6, hb6, hdp6⟩ := O.dropG _ hinv5' (32 * (p + num)) (by omega)
   have hv35 : SameVol d3 d5 := hs4.trans hs5
   have hs36 : VolStep d3 { d6 with dropDepth := d6.dropDepth - 1 } :=
     (((VolStep.of_sameVol hv35).trans (VolStep.of_sameVol (sameVol_depth d5 _))).trans hs6).trans
@@ -175,7 +183,8 @@ theorem WFam.writeEntry (IO : InvOK Inv) (hg : SlotGeo N src) (W : WFam Inv F G 
     exact srcSlots_congr (fun i hi x hx => hb6 _ (by have := hg.behind i hi; omega) (O.extra_out i hi x hx))
   refine ⟨{ d6 with dropDepth := d6.dropDepth - 1 }, ?_, hstep13.trans hs36,
     hk6 (by show d5.fs.curDirty = true; rw [hv35.fs]; exact hd3),
-    IO.vol _ _ hinv6 (sameVol_depth d6 _) rfl, ?_, ?_⟩
+    IO.vol _ _ hinv6 (sameVol_depth d6 _) rfl, ?_, ?_,
+    ⟨d5.img, fun q hq hn => by rw [hv35.img, hfr3 q hq hn, hv12.img], hdp6⟩⟩
   · unfold FatVerif.writeEntry
     rw [hval]
     simp only [hunits, hdot, Bool.false_eq_true, if_false]
